@@ -1689,7 +1689,7 @@ fn cross_product(include_long_waits: bool) -> Vec<Case> {
             Tmo::Ms(7) => 3,
             _ => 9,
         };
-        let relations: [Vec<TimerSpec>; 17] = [
+        let relations: [Vec<TimerSpec>; 19] = [
             vec![],
             vec![TimerSpec::Expired { ago_ms: 2 }],
             vec![TimerSpec::At { ms: earlier_ms }],
@@ -1712,6 +1712,10 @@ fn cross_product(include_long_waits: bool) -> Vec<Case> {
             vec![TimerSpec::Rearmed { old_ms: 5, new_ms: 12, from: 2 }],
             // an overdue timer whose callback removes the timer and still asks for a re-arming
             vec![TimerSpec::Far, TimerSpec::Periodic { ago_ms: 2, period_ms: 6, self_remove: true }],
+            // a one-shot and a repeating timer overdue in the same dispatch (either insertion order; the one-shot is the
+            // earlier one and leaves the wheel empty while the repeating one is in flight), then new timers
+            vec![TimerSpec::Periodic { ago_ms: 1, period_ms: 6, self_remove: false }, TimerSpec::Expired { ago_ms: 3 }],
+            vec![TimerSpec::Expired { ago_ms: 3 }, TimerSpec::Periodic { ago_ms: 1, period_ms: 6, self_remove: false }],
             vec![TimerSpec::AtLate],
         ];
         for timers in relations {
